@@ -309,4 +309,377 @@ theorem implicit_matches (xv : LazyRead.Bytes → String) (n : LazyRead.Node) (h
   obtain ⟨h1, h2, h3, h4, h5, h6, h7, h8, h9⟩ := hn
   refine ⟨?_, ?_, ?_, ?_, ?_, ?_, ?_, ?_⟩ <;> simp [h1, h2, h3, h4, h5, h6, h7, h8, h9, ntStr]
 
+
+/-! ## The fragment, and the TOC of a tar seen through pass 1 -/
+
+/-- The decidable fragment of tars for which the theorem is proved:
+  * every name (and hardlink target) is spelled plainly — any other spelling (`./`, `../`, `//`, a
+    trailing slash) is reduced to this one by `cleanName`, which both stores and the specification
+    apply first (C05 `cleanName_idem`);
+  * the TOC of the tar — AFTER the builder's `importTar` dropped all but the last entry of every
+    name — is `SpecConforming` (C05): supported types, no entry for the root itself, a directory
+    entry precedes what is below it (other ancestors implicit), hardlinks (also chains) point at
+    earlier non-directories, xattr keys unique. Duplicate names in the tar are fine. -/
+structure TarOK (xv : LazyRead.Bytes → String) (tar : List LazyRead.TarEntry) : Prop where
+  names : ∀ e ∈ tar, PlainPath e.name
+  links : ∀ e ∈ tar, e.type = .hardlink → PlainPath e.linkPath
+  spec : Toc.SpecConforming (tocOfTar xv tar)
+
+instance (xv : LazyRead.Bytes → String) (tar : List LazyRead.TarEntry) : Decidable (TarOK xv tar) :=
+  decidable_of_iff ((∀ e ∈ tar, PlainPath e.name) ∧ (∀ e ∈ tar, e.type = .hardlink → PlainPath e.linkPath) ∧
+      Toc.SpecConforming (tocOfTar xv tar))
+    ⟨fun ⟨a, b, c⟩ => ⟨a, b, c⟩, fun ⟨a, b, c⟩ => ⟨a, b, c⟩⟩
+
+theorem dedupLast_sub (l : List (LazyRead.Path × LazyRead.TarEntry)) : ∀ x ∈ LazyRead.dedupLast l, x ∈ l := by
+  induction l with
+  | nil => intro x h; cases h
+  | cons y ys ih =>
+    intro x h
+    unfold LazyRead.dedupLast at h
+    split at h
+    · exact List.mem_cons_of_mem _ (ih x h)
+    · rcases List.mem_cons.mp h with h | h
+      · exact h ▸ List.mem_cons_self
+      · exact List.mem_cons_of_mem _ (ih x h)
+
+theorem live_facts {xv : LazyRead.Bytes → String} {tar : List LazyRead.TarEntry} (ok : TarOK xv tar)
+    {x : LazyRead.Path × LazyRead.TarEntry} (hx : x ∈ importTar tar) :
+    x.1 = x.2.name ∧ PlainPath x.2.name ∧ (x.2.type = .hardlink → PlainPath x.2.linkPath) := by
+  have := dedupLast_sub _ x hx
+  obtain ⟨e, he, rfl⟩ := List.mem_map.mp this
+  exact ⟨cleanName_plain _ (ok.names e he), ok.names e he, ok.links e he⟩
+
+theorem ms_live {xv : LazyRead.Bytes → String} {tar : List LazyRead.TarEntry} (ok : TarOK xv tar)
+    {i : Nat} {m : Toc.MEnt} (hm : (Toc.pass1 (tocOfTar xv tar))[i]? = some m) :
+    ∃ x, (importTar tar)[i]? = some x ∧ m.e = tocOfEntry xv x.2 ∧ m.path = x.1 ∧ m.e.type ≠ "chunk" := by
+  obtain ⟨he, hp⟩ := Toc.pass1_getElem _ i m hm
+  unfold tocOfTar at he
+  rw [List.getElem?_map] at he
+  cases hl : (importTar tar)[i]? with
+  | none => rw [hl] at he; cases he
+  | some x =>
+    rw [hl] at he
+    simp only [Option.map_some, Option.some.injEq] at he
+    have hc : m.e.type ≠ "chunk" := by rw [← he]; exact typeStr_ne_chunk _
+    have hf := live_facts ok (List.mem_of_getElem? hl)
+    refine ⟨x, rfl, he.symm, ?_, hc⟩
+    rw [hp hc, ← he]
+    simp only [tocOfEntry]
+    rw [clean_render _ hf.2.1, hf.1]
+
+theorem live_ms {xv : LazyRead.Bytes → String} {tar : List LazyRead.TarEntry} (ok : TarOK xv tar)
+    {i : Nat} {x : LazyRead.Path × LazyRead.TarEntry} (hx : (importTar tar)[i]? = some x) :
+    ∃ m, (Toc.pass1 (tocOfTar xv tar))[i]? = some m ∧ m.e = tocOfEntry xv x.2 ∧ m.path = x.1 ∧
+      m.e.type ≠ "chunk" := by
+  have hi : i < (Toc.pass1 (tocOfTar xv tar)).length := by
+    rw [Toc.pass1_length]; unfold tocOfTar; rw [List.length_map]
+    exact (List.getElem?_eq_some_iff.mp hx).1
+  have hm : (Toc.pass1 (tocOfTar xv tar))[i]? = some (Toc.pass1 (tocOfTar xv tar))[i] :=
+    List.getElem?_eq_getElem hi
+  obtain ⟨x', hx', h1, h2, h3⟩ := ms_live ok hm
+  rw [hx] at hx'; cases hx'
+  exact ⟨_, hm, h1, h2, h3⟩
+
+theorem nonChunkAt_iff {xv : LazyRead.Bytes → String} {tar : List LazyRead.TarEntry} (ok : TarOK xv tar)
+    (j : Nat) (p : LazyRead.Path) :
+    Toc.NonChunkAt (Toc.pass1 (tocOfTar xv tar)) j p ↔ ∃ x, (importTar tar)[j]? = some x ∧ x.1 = p := by
+  constructor
+  · rintro ⟨m, hm, _, hp⟩
+    obtain ⟨x, hx, _, h2, _⟩ := ms_live ok hm
+    exact ⟨x, hx, by rw [← h2, hp]⟩
+  · rintro ⟨x, hx, hp⟩
+    obtain ⟨m, hm, _, h2, h3⟩ := live_ms ok hx
+    exact ⟨m, hm, h3, by rw [h2, hp]⟩
+
+theorem findEntry_at {xv : LazyRead.Bytes → String} {tar : List LazyRead.TarEntry} (ok : TarOK xv tar)
+    {j : Nat} {x : LazyRead.Path × LazyRead.TarEntry} (hx : (importTar tar)[j]? = some x) :
+    LazyRead.findEntry (importTar tar) x.1 = some x.2 := by
+  have nd := (Toc.spec_treeOK ok.spec).nodup
+  unfold LazyRead.findEntry
+  cases hf : List.find? (fun y => decide (y.1 = x.1)) (importTar tar) with
+  | none =>
+    have := List.find?_eq_none.mp hf x (List.mem_of_getElem? hx)
+    simp at this
+  | some y =>
+    have hy := List.mem_of_find?_eq_some hf
+    have hy1 : y.1 = x.1 := by have := List.find?_some hf; simpa using this
+    obtain ⟨j', hj'⟩ := List.getElem?_of_mem hy
+    have := nd j' j x.1 ((nonChunkAt_iff ok j' x.1).mpr ⟨y, hj', hy1⟩) ((nonChunkAt_iff ok j x.1).mpr ⟨x, hx, rfl⟩)
+    subst this
+    rw [hx] at hj'; cases hj'; rfl
+
+theorem findEntry_none {xv : LazyRead.Bytes → String} {tar : List LazyRead.TarEntry} (ok : TarOK xv tar)
+    {p : LazyRead.Path} (h : Toc.lastIdx (Toc.pass1 (tocOfTar xv tar)) p = none) :
+    LazyRead.findEntry (importTar tar) p = none := by
+  unfold LazyRead.findEntry
+  have hn := (Toc.lastIdx_eq_none_iff _ p).mp h
+  cases hf : List.find? (fun y => decide (y.1 = p)) (importTar tar) with
+  | none => rfl
+  | some y =>
+    have hy := List.mem_of_find?_eq_some hf
+    have hy1 : y.1 = p := by have := List.find?_some hf; simpa using this
+    obtain ⟨j, hj⟩ := List.getElem?_of_mem hy
+    exact absurd ((nonChunkAt_iff ok j p).mpr ⟨y, hj, hy1⟩) (hn j)
+
+
+/-! ## Hardlinks: by-name resolution of the specification = `getSource` of the store -/
+
+theorem resolve_agrees {xv : LazyRead.Bytes → String} {tar : List LazyRead.TarEntry} (ok : TarOK xv tar) :
+    ∀ (j : Nat) (x : LazyRead.Path × LazyRead.TarEntry), (importTar tar)[j]? = some x →
+      ∀ fuel, j < fuel →
+        ∃ r xr, Toc.resolveKey (Toc.pass1 (tocOfTar xv tar)) j = .ent r ∧ (importTar tar)[r]? = some xr ∧
+          xr.2.type ≠ .hardlink ∧ LazyRead.resolve (importTar tar) fuel x.1 = some (xr.1, xr.2) := by
+  have tok := Toc.spec_treeOK ok.spec
+  intro j
+  induction j using Nat.strongRecOn with
+  | _ j ih =>
+    intro x hx fuel hfuel
+    obtain ⟨m, hm, hme, hmp, hmc⟩ := live_ms ok hx
+    cases fuel with
+    | zero => omega
+    | succ f =>
+      unfold LazyRead.resolve
+      rw [findEntry_at ok hx, Toc.resolveKey_unfold tok hm]
+      simp only []
+      by_cases hh : x.2.type = .hardlink
+      · have hmh : m.e.type = "hardlink" := by rw [hme]; exact (typeStr_hardlink _).mpr hh
+        rw [if_pos hh, if_pos hmh]
+        obtain ⟨t, ht, hl, _⟩ := Toc.hardlink_target tok hm hmh
+        have hf := live_facts ok (List.mem_of_getElem? hx)
+        have hln : Toc.cleanName m.e.linkName = x.2.linkPath := by
+          rw [hme]; simp only [tocOfEntry, hh]
+          rw [if_neg (by decide), if_pos trivial, clean_render _ (hf.2.2 hh)]
+        rw [hln] at hl ⊢
+        simp only [hl]
+        obtain ⟨xt, hxt, hxp⟩ := (nonChunkAt_iff ok t _).mp ((Toc.lastIdx_eq_some_iff _ tok.nodup _ t).mp hl)
+        obtain ⟨r, xr, h1, h2, h3, h4⟩ := ih t ht xt hxt f (by omega)
+        refine ⟨r, xr, h1, h2, h3, ?_⟩
+        rw [cleanName_plain _ (hf.2.2 hh), ← hxp]; exact h4
+      · have hmh : ¬ m.e.type = "hardlink" := by rw [hme]; exact fun e => hh ((typeStr_hardlink _).mp e)
+        rw [if_neg hh, if_neg hmh]
+        exact ⟨j, x, rfl, hx, hh, rfl⟩
+
+/-! ## Walking the memory store's tree -/
+
+theorem walk_prefix (kids : Toc.Key → Toc.Kids) : ∀ (p r : Toc.Path) (k c : Toc.Key),
+    Toc.walkKids kids k (p ++ r) = some c → ∃ c', Toc.walkKids kids k p = some c' := by
+  intro p
+  induction p with
+  | nil => intro r k c _; exact ⟨k, rfl⟩
+  | cons b rest ih =>
+    intro r k c h
+    simp only [List.cons_append, Toc.walkKids] at h ⊢
+    cases hg : Toc.getKid b (kids k) with
+    | none => rw [hg] at h; cases h
+    | some c1 => rw [hg] at h; exact ih r c1 c h
+
+theorem mem_of_getKid {b : String} {l : Toc.Kids} {c : Toc.Key} (h : Toc.getKid b l = some c) : (b, c) ∈ l := by
+  induction l with
+  | nil => cases h
+  | cons x xs ih =>
+    unfold Toc.getKid at h
+    by_cases hx : x.1 = b
+    · rw [if_pos hx] at h; cases h
+      have : x = (b, x.2) := by rw [← hx]
+      rw [this]; exact List.mem_cons_self
+    · rw [if_neg hx] at h; exact List.mem_cons_of_mem _ (ih h)
+
+/-- along a walk that starts at an existing node the tree's children maps are the state's -/
+theorem walk_mem (ms : List Toc.MEnt) (s : Toc.MState) (i : Nat)
+    (hk : ∀ k kv, kv ∈ s.kids k → Toc.Created ms i s.imps kv.2) :
+    ∀ (p : Toc.Path) (k : Toc.Key), Toc.Created ms i s.imps k →
+      Toc.walkKids (fun k => (Toc.memNode ms s k).kids) k p = Toc.walkKids s.kids k p := by
+  intro p
+  induction p with
+  | nil => intro k _; rfl
+  | cons b rest ih =>
+    intro k hc
+    simp only [Toc.walkKids]
+    rw [Toc.memNode_kids s k hc]
+    cases hg : Toc.getKid b (s.kids k) with
+    | none => rfl
+    | some c => exact ih c (hk k (b, c) (mem_of_getKid hg))
+
+/-! ## The theorem -/
+
+/-- Path by path: the node the tree serves at `p` (walking children maps from the root, as `GetChild`
+does) and the node the specification describes at `p` exist together and carry the same
+attributes. -/
+def PathMatches (xv : LazyRead.Bytes → String) (t : Toc.Tree) (tar : List LazyRead.TarEntry)
+    (p : LazyRead.Path) : Prop :=
+  match Toc.walkKids (fun k => (t.node k).kids) t.root p with
+  | none => (LazyRead.tarView tar).node p = none
+  | some k => ∃ n, (LazyRead.tarView tar).node p = some n ∧ AttrMatches xv (t.node k).attr n
+
+theorem mem_tree_matches {xv : LazyRead.Bytes → String} {tar : List LazyRead.TarEntry} (ok : TarOK xv tar) :
+    ∃ tm, Toc.memTree (tocOfTar xv tar) = .accept tm ∧ ∀ p, PathMatches xv tm tar p := by
+  obtain ⟨smF, sdF, h1, _, inv, _, hroot, hhl⟩ := Toc.final_states ok.spec
+  have tok := Toc.spec_treeOK ok.spec
+  have hl0 : Toc.lastIdx (Toc.pass1 (tocOfTar xv tar)) [] = none := (Toc.lastIdx_eq_none_iff _ []).mpr tok.noRoot
+  have hsrc : ∀ org, org ∈ smF.hlSources → smF.kids org = [] := by
+    intro org horg
+    rw [inv.kids]
+    exact inv.noKids org (fun h => (hhl org horg).2 h.2)
+  refine ⟨_, Toc.memTree_accept h1 hroot hl0 hsrc, ?_⟩
+  intro p
+  unfold PathMatches
+  simp only []
+  -- the walk is `look`
+  have hkc : ∀ k kv, kv ∈ smF.kids k → Toc.Created (Toc.pass1 (tocOfTar xv tar)) (tocOfTar xv tar).length smF.imps kv.2 := by
+    intro k kv h; rw [inv.kids] at h; exact inv.kidsCreated k kv h
+  have hkeq : smF.kids = sdF.kids := funext inv.kids
+  rw [walk_mem _ smF _ hkc p .root trivial, hkeq, inv.walk p]
+  simp only [List.not_mem_nil, if_false]
+  have hlen : (tocOfTar xv tar).length = (importTar tar).length := by unfold tocOfTar; rw [List.length_map]
+  -- ancestors are implicit directories and vice versa
+  have himps : ∀ d ∈ smF.imps, d = [] ∨ ∃ x ∈ importTar tar, ∃ n, n < x.1.length ∧ d = x.1.take n := by
+    intro d hd
+    rcases pass2_imps _ _ _ _ h1 d hd with h | ⟨im, him, _, n, hn, he⟩
+    · cases h
+    · obtain ⟨i, m⟩ := im
+      obtain ⟨_, hm⟩ := mem_enumFrom' _ 0 i m him
+      simp only [Nat.sub_zero] at hm
+      obtain ⟨x, hx, _, hp, _⟩ := ms_live ok hm
+      simp only at hn he
+      rw [hp] at hn he
+      exact Or.inr ⟨x, List.mem_of_getElem? hx, n, hn, he⟩
+  unfold Toc.look
+  by_cases hp : p = []
+  · -- the root: no entry of its own, an implicit directory in both
+    subst hp
+    rw [if_pos rfl]
+    simp only []
+    have hc : (allPaths (importTar tar)).contains [] = true := (mem_allPaths _ _).mpr (Or.inl rfl)
+    obtain ⟨n, hn, hi⟩ := tarView_implicit tar [] hc (findEntry_none ok hl0)
+    exact ⟨n, hn, implicit_matches xv n hi _⟩
+  · rw [if_neg hp]
+    cases hl : Toc.lastIdx (Toc.pass1 (tocOfTar xv tar)) p with
+    | some j =>
+      -- a name of the archive
+      simp only []
+      obtain ⟨xj, hxj, hxp⟩ := (nonChunkAt_iff ok j p).mp ((Toc.lastIdx_eq_some_iff _ tok.nodup p j).mp hl)
+      have hj : j < (importTar tar).length := (List.getElem?_eq_some_iff.mp hxj).1
+      rw [if_pos (by omega)]
+      simp only []
+      obtain ⟨r, xr, hr1, hr2, hr3, hr4⟩ := resolve_agrees ok j xj hxj ((importTar tar).length + 1) (by omega)
+      rw [hxp] at hr4
+      have hc : (allPaths (importTar tar)).contains p = true :=
+        (mem_allPaths _ _).mpr (Or.inr (Or.inl ⟨xj, List.mem_of_getElem? hxj, hxp⟩))
+      have hf := findEntry_at ok hxj
+      rw [hxp] at hf
+      obtain ⟨n, hn, hi⟩ := tarView_entry tar p xr.1 xj.2 xr.2 hc hf hr4
+      obtain ⟨mr, hmr, hme, _, _⟩ := live_ms ok hr2
+      refine ⟨n, hn, ?_⟩
+      rw [hr1]
+      have : (Toc.memNode (Toc.pass1 (tocOfTar xv tar)) smF (.ent r)).attr =
+          Toc.attrOfEntry mr.e (smF.nl (.ent r)) := by simp [Toc.memNode, hmr]
+      rw [this, hme]
+      exact entry_matches xv xr.2 hr3 n hi _
+    | none =>
+      simp only []
+      have hfn := findEntry_none ok hl
+      by_cases hi : p ∈ smF.imps
+      · -- an implicit directory
+        rw [if_pos hi]
+        simp only []
+        have hc : (allPaths (importTar tar)).contains p = true := by
+          rcases himps p hi with h | h
+          · exact absurd h hp
+          · exact (mem_allPaths _ _).mpr (Or.inr (Or.inr h))
+        obtain ⟨n, hn, hid⟩ := tarView_implicit tar p hc hfn
+        refine ⟨n, hn, ?_⟩
+        have : (Toc.memNode (Toc.pass1 (tocOfTar xv tar)) smF (.imp p)).attr =
+            { mode := Toc.goFileMode "dir" 0o755, numLink := smF.nl (.imp p) } := rfl
+        rw [this]
+        exact implicit_matches xv n hid _
+      · -- nothing there, in either
+        rw [if_neg hi]
+        simp only []
+        apply tarView_none
+        cases hcc : (allPaths (importTar tar)).contains p with
+        | false => rfl
+        | true =>
+          exfalso
+          rcases (mem_allPaths _ _).mp hcc with h | ⟨x, hx, e⟩ | ⟨x, hx, n, hn, e⟩
+          · exact hp h
+          · obtain ⟨j, hj⟩ := List.getElem?_of_mem hx
+            have := (Toc.lastIdx_eq_some_iff _ tok.nodup p j).mpr ((nonChunkAt_iff ok j p).mpr ⟨x, hj, e⟩)
+            rw [hl] at this; cases this
+          · -- p is a proper ancestor of the name of entry x: the walk to x passes through p
+            obtain ⟨j, hj⟩ := List.getElem?_of_mem hx
+            have hjl : j < (importTar tar).length := (List.getElem?_eq_some_iff.mp hj).1
+            have hlx := (Toc.lastIdx_eq_some_iff _ tok.nodup x.1 j).mpr ((nonChunkAt_iff ok j x.1).mpr ⟨x, hj, rfl⟩)
+            have hx1 : x.1 ≠ [] := by intro e0; rw [e0] at hn; simp at hn
+            have hw := inv.walk x.1
+            simp only [List.not_mem_nil, if_false] at hw
+            unfold Toc.look at hw
+            rw [if_neg hx1, hlx] at hw
+            simp only [] at hw
+            rw [if_pos (by omega)] at hw
+            have hsplit : x.1 = p ++ x.1.drop n := by rw [e]; exact (List.take_append_drop n x.1).symm
+            rw [hsplit] at hw
+            obtain ⟨c', hc'⟩ := walk_prefix _ _ _ _ _ hw
+            have hw2 := inv.walk p
+            simp only [List.not_mem_nil, if_false] at hw2
+            rw [hc'] at hw2
+            unfold Toc.look at hw2
+            rw [if_neg hp, hl] at hw2
+            simp only [] at hw2
+            rw [if_neg hi] at hw2
+            cases hw2
+
+
+/-! ## The db store, through C05's simulation -/
+
+/-- the db store's variant: what a container can observe of the node's attributes
+(`Toc.normalise` = fs/layer `entryToAttr`) is what it observes of attributes matching the
+specification -/
+def PathMatchesN (xv : LazyRead.Bytes → String) (t : Toc.Tree) (tar : List LazyRead.TarEntry)
+    (p : LazyRead.Path) : Prop :=
+  match Toc.walkKids (fun k => (t.node k).kids) t.root p with
+  | none => (LazyRead.tarView tar).node p = none
+  | some k => ∃ n a, (LazyRead.tarView tar).node p = some n ∧ AttrMatches xv { a with numLink := 0 } n ∧
+      { Toc.normalise (t.node k).attr with nlink := 0 } = { Toc.normalise a with nlink := 0 }
+
+theorem walk_agree {t1 t2 : Toc.Tree} {C : Toc.Key → Prop} (ag : Toc.TreesAgree t1 t2 C) :
+    ∀ (p : Toc.Path) (k : Toc.Key), C k →
+      Toc.walkKids (fun k => (t2.node k).kids) k p = Toc.walkKids (fun k => (t1.node k).kids) k p ∧
+      ∀ c, Toc.walkKids (fun k => (t1.node k).kids) k p = some c → C c := by
+  intro p
+  induction p with
+  | nil => intro k hk; exact ⟨rfl, fun c h => by cases h; exact hk⟩
+  | cons b rest ih =>
+    intro k hk
+    simp only [Toc.walkKids]
+    rw [← (ag.node k hk).kids]
+    cases hg : Toc.getKid b (t1.node k).kids with
+    | none => exact ⟨rfl, fun c h => by cases h⟩
+    | some c1 => exact ih c1 (ag.closed k hk (b, c1) (mem_of_getKid hg))
+
+theorem both_trees_match {xv : LazyRead.Bytes → String} {tar : List LazyRead.TarEntry} (ok : TarOK xv tar) :
+    ∃ tm td, Toc.memTree (tocOfTar xv tar) = .accept tm ∧ Toc.dbTree (tocOfTar xv tar) = .accept td ∧
+      Toc.view tm = Toc.view td ∧ ∀ p, PathMatches xv tm tar p ∧ PathMatchesN xv td tar p := by
+  obtain ⟨tm, hm, hpm⟩ := mem_tree_matches ok
+  obtain ⟨smF, sdF, h1, h2, ag⟩ := Toc.trees_agree ok.spec
+  rw [hm] at h1
+  cases h1
+  refine ⟨_, _, hm, h2, Toc.view_agree ag, fun p => ⟨hpm p, ?_⟩⟩
+  have hw := walk_agree ag p .root ag.rootC
+  have hp := hpm p
+  unfold PathMatches at hp
+  unfold PathMatchesN
+  simp only [] at hp hw ⊢
+  rw [hw.1]
+  cases hwk : Toc.walkKids (fun k => (Toc.memNode (Toc.pass1 (tocOfTar xv tar)) smF k).kids) .root p with
+  | none => rw [hwk] at hp; exact hp
+  | some k =>
+    rw [hwk] at hp
+    obtain ⟨n, hn, ha⟩ := hp
+    have hc := hw.2 k hwk
+    have hna := (ag.node k hc).attr
+    refine ⟨n, (Toc.memNode (Toc.pass1 (tocOfTar xv tar)) smF k).attr, hn, ?_, ?_⟩
+    · exact ⟨ha.mode, ha.size, ha.uid, ha.gid, ha.devMajor, ha.devMinor, ha.link, ha.xattrs⟩
+    · simp only [] at hna ⊢
+      rw [← hna]
+
 end SV.MetaTar
